@@ -219,10 +219,14 @@ def module_slots_roundtrip(H, shape):
 _CLASS_CP = {1: [0x01, 0x41, 0x7F], 2: [0x80, 0xE9, 0x7FF], 3: [0x800, 0x20AC, 0xD7FF, 0xE000, 0xFFFF], 4: [0x10000, 0x1F600, 0x10FFFF]}
 
 
+# leading / trailing / inner white space is part of a name ("all Unicode names without NUL")
+WHITESPACE_NAMES = [" lead", "trail ", " both ", " ", "   ", "tab\tinside", "\ttab first", "line\nbreak", "nbsp\u00a0", "\u3000wide space"]
+
+
 def _name_catalogue(tier):
     """Names described by UTF-8 length-class patterns whose total length ranges across the 32-byte
     limit, with the straddling character of every class at every possible offset."""
-    names = ["", "x", "Amplifier", "plain ascii name that is longer than thirty-two bytes"]
+    names = ["", "x", "Amplifier", "plain ascii name that is longer than thirty-two bytes"] + WHITESPACE_NAMES
     for last_class in (1, 2, 3, 4):
         for fill_class in (1, 2, 3, 4):
             for lead in range(0, fill_class):  # shift the phase of the filler sequence
@@ -236,7 +240,7 @@ def _name_catalogue(tier):
                     for cp in _CLASS_CP[last_class]:
                         names.append(s + chr(cp) + "tail")
     if tier == "quick":
-        names = names[::5] + names[:4]
+        names = names[::5] + names[:4 + len(WHITESPACE_NAMES)]
     out = []
     seen = set()
     for n in names:
